@@ -5,6 +5,8 @@ from . import conn_gen, conn_mon, c01
 
 ID = "C04"
 ENGINE = "conn"
+# companion pass: partial transport writes of counted stanzas (byte-level schedules are engine q's, C06's generator)
+ALSO = [("c06", 1500)]
 VARIANT = "std"
 STATEFUL = True
 LEVEL = "proof"
